@@ -292,6 +292,22 @@ struct Mixed {
             ctx.st.checks++;
             return true;
         }
+        if (k == "vsclass") { // change the class of a stored Vdata to one of another length (shorter ones too)
+            if (!need_h())
+                return true;
+            int32 ref = VSfind(fid, strf("vd%d", modn(o.arg(0), 6)).c_str());
+            if (ref <= 0)
+                return false;
+            int32 vs = VSattach(fid, ref, "w");
+            if (MX("VSattach", vs == FAIL))
+                return true;
+            std::string c;
+            for (int j = 0; j < modn(o.arg(1), 20); j++)
+                c += (char)('k' + j % 7);
+            MX("VSsetclass", VSsetclass(vs, c.c_str()) == FAIL);
+            MX("VSdetach", VSdetach(vs) == FAIL);
+            return true;
+        }
         if (k == "vsnew" || k == "vsappend" || k == "vsread") {
             if (!need_h())
                 return true;
@@ -779,6 +795,8 @@ struct MixedGen {
                     return mkop(0, "vsnew", {(int64_t)r.below(6), 1 + r.sizeish(30), (int64_t)r.below(5), ds, r.chance(0.3) ? r.range(1, 200) : 0});
                 if (k == 1)
                     return mkop(0, "vgnew", {(int64_t)r.below(6), r.chance(0.2) ? r.range(60, 69) : r.sizeish(10)});
+                if (k == 2 && r.chance(0.3))
+                    return mkop(0, "vsclass", {(int64_t)r.below(6), (int64_t)r.below(20)});
                 if (k == 2)
                     return mkop(0, "vsappend", {(int64_t)r.below(6), 1 + r.sizeish(30), 0, ds});
                 return mkop(0, "vgadd", {(int64_t)r.below(6), (int64_t)r.below(3), (int64_t)r.below(8)});
